@@ -66,6 +66,15 @@ class Explorer:
             return env[k]
         if isinstance(e, ast.Constant):
             return e.value
+        if isinstance(e, (ast.Name, ast.Attribute)) and k is not None and k.startswith("gunicorn."):
+            # module-level / class-level constant of the repository (folded, never executed)
+            try:
+                m, ce = self.repo.const_expr(k)
+                v = self.repo.fold(m, ce)
+                if isinstance(v, (int, float, str, bytes, tuple, bool)) or v is None:
+                    return v
+            except Exception:
+                pass
         if isinstance(e, ast.Attribute) and k is not None and "." in k:
             # symbolic constant of an imported module (signal.SIGTERM, errno.ESRCH, ...)
             root = e
